@@ -386,6 +386,11 @@ func (w *c15World) checkMap(out *c15Out, m map[string]interface{}) {
 		return
 	}
 	n, _ := c15Int(m["n"])
+	if _, has := m["m"]; !has {
+		// a NULL column must be REPORTED by the map path (key present, nil), as the struct path reports a nil pointer
+		out.Bad = fmt.Sprintf("row %d delivered as map %v: no key for column m", id, m)
+		return
+	}
 	mv, mok := c15Int(m["m"])
 	if n != r.N || fmt.Sprint(m["s"]) != r.S || mok != (r.M != nil) || (mok && mv != *r.M) {
 		out.Bad = fmt.Sprintf("row %d delivered as map %v, table has %+v", id, m, r)
